@@ -564,7 +564,21 @@ func typeMentionsSQL(t types.Type, depth int) bool {
 	switch u := t.(type) {
 	case *types.Named:
 		if u.Obj().Pkg() != nil && u.Obj().Pkg().Path() == pkgSQL {
-			return true
+			// a builder object: one of the package's interfaces, or a type that renders itself (String(ctx, options...));
+			// plain data types that merely live in the package (tables of constants) are not
+			if _, isIface := u.Underlying().(*types.Interface); isIface {
+				return true
+			}
+			for _, t := range []types.Type{u, types.NewPointer(u)} {
+				ms := types.NewMethodSet(t)
+				for i := 0; i < ms.Len(); i++ {
+					if f, ok := ms.At(i).Obj().(*types.Func); ok && f.Name() == "String" {
+						if sig := f.Type().(*types.Signature); sig.Params().Len() >= 1 {
+							return true
+						}
+					}
+				}
+			}
 		}
 		return typeMentionsSQL(u.Underlying(), depth+1)
 	case *types.Pointer:
